@@ -1438,6 +1438,16 @@ func (x *Exec) doReturn(st *State, fr *Frame, r *ssa.Return) (stop bool) {
 		if fr.afterSite != nil {
 			x.callSite(st, caller, fr.afterKind, fr.afterCallee, fr.afterArgs, rets, "after", fr.afterSite)
 		}
+		if fr.cbEffect != nil {
+			// end of the callback invocation: further invocations may follow, then the callee returns
+			x.havocEffect(st, caller, fr.cbEffect)
+			x.havocCaptured(st, fr.cbClosure)
+			var outs []Val
+			for i, rt := range fr.cbResTypes {
+				outs = append(outs, x.freshVal(st, rt, fmt.Sprintf("ret!%s!%d", shortName(fr.cbCallee), i)))
+			}
+			x.setRet(st, caller, fr.cbRetTo, outs, -1)
+		}
 		return false
 	}
 	x.returns++
